@@ -1,7 +1,8 @@
 /* Harnesses for the backend-independent XML import code (C06): the backend is the executable contract of the state API. */
 static const char *attr_pool[] = { "nbobjs", "type", "indexing", "kind", "name", "length", "value", "encoding", "zz", "cpuset", "forced_efficiency",
-                                  "target_obj_gp_index", "target_obj_type", "initiator_cpuset", "initiator_obj_gp_index", "initiator_obj_type" };
-static const char *tag_pool[] = { "info", "indexes", "u64values", "zz" };
+                                  "target_obj_gp_index", "target_obj_type", "initiator_cpuset", "initiator_obj_gp_index", "initiator_obj_type",
+                                  "obj_depth", "obj_index", "obj_attr_type", "obj_attr_index", "obj_attr_name", "obj_attr_oldvalue", "obj_attr_newvalue" };
+static const char *tag_pool[] = { "info", "indexes", "u64values", "zz", "diff" };
 #define NPOOL(a) (sizeof(a) / sizeof(*(a)))
 static int honor_length;           /* get_content: 1 = a delivered content has exactly the expected length (what both backends guarantee) */
 static int content_open[2];        /* ghost: get_content succeeded on this element and close_content has not been called since */
@@ -135,5 +136,28 @@ void hp_xml_import_memattr_value(void)
   __CPROVER_assert(r == 0 || r == -1, "returns 0 or -1");
   __CPROVER_assert(verif_setvalue_calls <= 1 && (r == 0) == (verif_setvalue_calls == 1), "a value is stored exactly when the element is accepted");
   __CPROVER_assert(verif_bm_allocs <= 1 && verif_bm_released == verif_bm_allocs, "an initiator cpuset is released exactly once");
+  VERIF_CANARY();
+}
+
+
+/* hwloc__xml_import_diff for ANY sequence of <= XC <diff> (or unknown) children with ANY attributes: memory safe, 0/-1, and
+ * nothing it allocated is lost: on success the returned list owns every allocation (the harness releases it and the
+ * counter returns to zero), on failure every allocation has been released */
+void hp_xml_import_diff(void)
+{
+  hwloc_topology_diff_t first = (hwloc_topology_diff_t)0, d, next; int r;
+  VERIF_GHOSTS();
+  mk_backend(); verif_live_allocs = 0;
+  r = hwloc__xml_import_diff(&st0, &first);
+  __CPROVER_assert(r == 0 || r == -1, "returns 0 or -1");
+  if (r == -1) __CPROVER_assert(first == 0, "failure: no list is returned");
+  for (d = first; d; d = next) {            /* what hwloc_topology_diff_destroy() does */
+    next = d->generic.next;
+    if (d->generic.type == HWLOC_TOPOLOGY_DIFF_OBJ_ATTR && (d->obj_attr.diff.generic.type == HWLOC_TOPOLOGY_DIFF_OBJ_ATTR_NAME || d->obj_attr.diff.generic.type == HWLOC_TOPOLOGY_DIFF_OBJ_ATTR_INFO)) {
+      verif_counting_free(d->obj_attr.diff.string.name); verif_counting_free(d->obj_attr.diff.string.oldvalue); verif_counting_free(d->obj_attr.diff.string.newvalue);
+    }
+    verif_counting_free(d);
+  }
+  __CPROVER_assert(verif_live_allocs == 0, "no allocation of the import is lost (on failure the partial list is released, on success the returned list owns everything)");
   VERIF_CANARY();
 }
